@@ -37,6 +37,17 @@ def generate(seed, stratum, tier):
   sc = cc.gen_chart_scenario(rng, combos=[(host, 'closure-spied')], spec_kw=kw, ops=ops, weights=weights, nops=(4, 30), flags=False)
   if rng.random() < 0.3:
     sc['rings'] = {'spy': 40}
+  if host == 'ao' and rng.random() < 0.5:
+    # the last event makes the object stop itself from a handler (supported: stop() from inside the object's thread):
+    # the step's log must still hold everything the step did
+    spec = sc['spec']
+    spec['signals'] = list(spec['signals']) + ['SZ']
+    for st in spec['states']:
+      if st['parent'] is None or rng.random() < 0.3:
+        st['react']['SZ'] = {'kind': 'hook', 'fx': [{'op': 'stop', 'id': 900 + len(st['name']), 'max': 1}]}
+      elif rng.random() < 0.3:
+        st['react']['SZ'] = {'kind': 'decline'}
+    sc['ops'] = [o for o in sc['ops'] if o[0] not in ('clear_spy', 'clear_trace')] + [['ev', 'SZ']]
   return sc
 
 
